@@ -987,10 +987,62 @@ def rule_leaf(trees):
     return res
 
 
+def _numbered(n):
+    """(base, number) if the node is a numbered column/map variable, possibly wrapped: `el3`, `map2.clone()`, `&el1`, `Some(map1)`."""
+    for _ in range(4):
+        k = kind(n)
+        if k == "mcall" and n["m"] in ("clone", "into", "as_ref") and not n["a"]:
+            n = n["r"]
+        elif k == "ref":
+            n = n["e"]
+        elif k == "call" and is_path(n["f"], "Some") and len(n["a"]) == 1:
+            n = n["a"][0]
+        else:
+            break
+    name = None
+    if kind(n) == "path":
+        name = n["p"]
+    elif kind(n) == "pid":
+        name = n["n"]
+    elif kind(n) == "param" and kind(n["p"]) == "pid":
+        name = n["p"]["n"]
+    if name:
+        m = re.match(r"^([a-z_]+?)(\d+)$", name)
+        if m:
+            return m.group(1), int(m.group(2))
+    return None
+
+
+def _runs_out_of_order(node):
+    """Lists (call arguments, array/tuple elements, patterns, parameters) in which numbered variables of one family do not
+    appear in ascending consecutive order. The sibling normal form abstracts the numbers away, so their order is checked here."""
+    bad = []
+    for x in walk(node):
+        for key in ("a", "e", "params"):
+            lst = x.get(key)
+            if not isinstance(lst, list) or len(lst) < 2:
+                continue
+            prev = None
+            for it in lst:
+                cur = _numbered(it) if isinstance(it, dict) else None
+                if prev and cur and prev[0] == cur[0] and cur[1] != prev[1] + 1:
+                    bad.append((x.get("ln"), "%s%d after %s%d" % (cur[0], cur[1], prev[0], prev[1])))
+                prev = cur
+    return bad
+
+
 def rule_sib(trees):
     """S-SIB: PrefixTree2..9 are the same implementation."""
     res = RuleResult("S-SIB")
     methods = _prefix_tree_methods(trees)
+    for name, by_n in sorted(methods.items()):
+        for n, fn in sorted(by_n.items()):
+            bad = _runs_out_of_order({"params": fn["params"], "b": fn["b"]})
+            if bad:
+                res.bad("S-SIB:%s:numbered-run-out-of-order" % name, "eqlog-runtime/src/prefix_tree.rs:%s PrefixTree%d::%s" % (bad[0][0], n, name),
+                        "PrefixTree%d::%s lists column/map variables out of order: %s" % (n, name, bad[0][1]))
+            else:
+                res.ok()
     for name, by_n in sorted(methods.items()):
         arities = [n for n in by_n if n >= 2]
         if not arities:
